@@ -288,3 +288,194 @@ pub fn saturate<const B: usize, const W: usize>(x: &X<W>, signed: bool) -> [u8; 
         max_u::<B>()
     }
 }
+
+// ------------------------------------------------------------------------------------------------
+// digit-level helpers: loop counts bounded by the digit count N (never by the byte count), so the
+// harness unwind bound can stay at N + 2 - CBMC unrolls bnum's symbolic-start loops up to the bound.
+
+/// bit i of a little-endian digit array (no loop)
+#[inline(always)]
+pub fn dbit<D: Dig, const N: usize>(d: &[D; N], i: u32) -> bool {
+    (d[(i / D::BITS) as usize].to_u64() >> (i % D::BITS)) & 1 == 1
+}
+/// byte k of a little-endian digit array (no loop)
+#[inline(always)]
+pub fn dbyte<D: Dig, const N: usize>(d: &[D; N], k: usize) -> u8 {
+    d[k / D::BYTES].byte(k % D::BYTES)
+}
+/// digit-wise equality (N iterations; `==` on bnum values is a memcmp loop over the bytes under Kani)
+#[inline(always)]
+pub fn deq<D: Dig, const N: usize>(a: &[D; N], b: &[D; N]) -> bool {
+    let mut i = 0;
+    let mut eq = true;
+    while i < N {
+        eq &= a[i] == b[i];
+        i += 1;
+    }
+    eq
+}
+#[inline(always)]
+pub fn dzero<D: Dig, const N: usize>(a: &[D; N]) -> bool {
+    let mut i = 0;
+    let mut z = true;
+    while i < N {
+        z &= a[i] == D::ZERO;
+        i += 1;
+    }
+    z
+}
+#[inline(always)]
+pub fn dneg<D: Dig, const N: usize>(a: &[D; N]) -> bool {
+    a[N - 1].to_u64() >> (D::BITS - 1) == 1
+}
+
+/// Exact integer in M-digit two's complement, M = N + 1 (enough for sums / differences of N-digit values
+/// with a carry, negation, abs).  Loops run M times.
+#[derive(Clone, Copy)]
+pub struct XD<D: Dig, const M: usize>(pub [D; M]);
+
+impl<D: Dig, const M: usize> XD<D, M> {
+    #[inline(always)]
+    pub fn small(v: i8) -> Self {
+        let mut o = [if v < 0 { D::MAXD } else { D::ZERO }; M];
+        o[0] = D::from_u64((v as i64) as u64);
+        XD(o)
+    }
+    #[inline(always)]
+    pub fn from_u<const N: usize>(a: &[D; N]) -> Self {
+        let mut o = [D::ZERO; M];
+        let mut i = 0;
+        while i < N { o[i] = a[i]; i += 1; }
+        XD(o)
+    }
+    #[inline(always)]
+    pub fn from_s<const N: usize>(a: &[D; N]) -> Self {
+        let mut o = [if dneg(a) { D::MAXD } else { D::ZERO }; M];
+        let mut i = 0;
+        while i < N { o[i] = a[i]; i += 1; }
+        XD(o)
+    }
+    #[inline(always)]
+    pub fn from_val<const N: usize>(a: &[D; N], signed: bool) -> Self {
+        if signed { Self::from_s(a) } else { Self::from_u(a) }
+    }
+    #[inline(always)]
+    pub fn is_neg(&self) -> bool { dneg(&self.0) }
+    #[inline(always)]
+    pub fn is_zero(&self) -> bool { dzero(&self.0) }
+    #[inline(always)]
+    pub fn add(&self, o: &Self) -> Self {
+        let mut r = [D::ZERO; M];
+        let mut c = 0u128;
+        let mut i = 0;
+        while i < M {
+            let s = self.0[i].to_u64() as u128 + o.0[i].to_u64() as u128 + c;
+            r[i] = D::from_u64(s as u64);
+            c = s >> D::BITS;
+            i += 1;
+        }
+        XD(r)
+    }
+    #[inline(always)]
+    pub fn not(&self) -> Self {
+        let mut r = [D::ZERO; M];
+        let mut i = 0;
+        while i < M { r[i] = D::from_u64(!self.0[i].to_u64()); i += 1; }
+        XD(r)
+    }
+    #[inline(always)]
+    pub fn neg(&self) -> Self { self.not().add(&Self::small(1)) }
+    #[inline(always)]
+    pub fn sub(&self, o: &Self) -> Self { self.add(&o.neg()) }
+    #[inline(always)]
+    pub fn abs(&self) -> Self { if self.is_neg() { self.neg() } else { *self } }
+    #[inline(always)]
+    pub fn cmp(&self, o: &Self) -> Ordering {
+        let d = self.sub(o);
+        if d.is_zero() { Ordering::Equal } else if d.is_neg() { Ordering::Less } else { Ordering::Greater }
+    }
+    #[inline(always)]
+    pub fn half_floor(&self) -> Self {
+        let mut r = [D::ZERO; M];
+        let mut i = 0;
+        while i < M {
+            let hi = if i + 1 < M { self.0[i + 1].to_u64() } else if self.is_neg() { u64::MAX } else { 0 };
+            r[i] = D::from_u64((self.0[i].to_u64() >> 1) | (hi << (D::BITS - 1)));
+            i += 1;
+        }
+        XD(r)
+    }
+    #[inline(always)]
+    pub fn is_odd(&self) -> bool { self.0[0].to_u64() & 1 == 1 }
+    /// in [0, 2^(N digits))  (M = N + 1)
+    #[inline(always)]
+    pub fn fits_u(&self) -> bool { self.0[M - 1] == D::ZERO }
+    /// in the signed N-digit range
+    #[inline(always)]
+    pub fn fits_s(&self) -> bool {
+        let sign = self.0[M - 2].to_u64() >> (D::BITS - 1) == 1;
+        self.0[M - 1] == if sign { D::MAXD } else { D::ZERO }
+    }
+    #[inline(always)]
+    pub fn fits(&self, signed: bool) -> bool { if signed { self.fits_s() } else { self.fits_u() } }
+    #[inline(always)]
+    pub fn low<const N: usize>(&self) -> [D; N] {
+        let mut o = [D::ZERO; N];
+        let mut i = 0;
+        while i < N { o[i] = self.0[i]; i += 1; }
+        o
+    }
+    /// clamp into the N-digit range
+    #[inline(always)]
+    pub fn saturate<const N: usize>(&self, signed: bool) -> [D; N] {
+        if self.fits(signed) {
+            self.low::<N>()
+        } else if self.is_neg() {
+            let mut o = [D::ZERO; N];
+            if signed { o[N - 1] = D::from_u64(1u64 << (D::BITS - 1)); }
+            o
+        } else {
+            let mut o = [D::MAXD; N];
+            if signed { o[N - 1] = D::from_u64(D::MAXD.to_u64() >> 1); }
+            o
+        }
+    }
+}
+
+// ------------------------------------------------------------------------------------------------
+/// Raw digit-array view of the eight bnum integer families (the only glue between bnum values and oracles).
+pub trait BN<D: Dig, const N: usize>: Copy {
+    const SIGNED: bool;
+    fn mk(d: [D; N]) -> Self;
+    fn dg(&self) -> [D; N];
+    /// fully symbolic value
+    #[inline(always)]
+    fn any() -> (Self, [D; N]) {
+        let d: [D; N] = crate::nd::nd();
+        (Self::mk(d), d)
+    }
+    /// value whose digits range over the boundary alphabet
+    #[inline(always)]
+    fn any_alpha() -> (Self, [D; N]) {
+        let d: [D; N] = alpha_digits::<D, N>();
+        (Self::mk(d), d)
+    }
+}
+macro_rules! bn {
+    ($U:ident, $I:ident, $D:ty) => {
+        impl<const N: usize> BN<$D, N> for bnum::$U<N> {
+            const SIGNED: bool = false;
+            #[inline(always)] fn mk(d: [$D; N]) -> Self { Self::from_digits(d) }
+            #[inline(always)] fn dg(&self) -> [$D; N] { *self.digits() }
+        }
+        impl<const N: usize> BN<$D, N> for bnum::$I<N> {
+            const SIGNED: bool = true;
+            #[inline(always)] fn mk(d: [$D; N]) -> Self { Self::from_bits(bnum::$U::<N>::from_digits(d)) }
+            #[inline(always)] fn dg(&self) -> [$D; N] { *self.to_bits().digits() }
+        }
+    };
+}
+bn!(BUintD8, BIntD8, u8);
+bn!(BUintD16, BIntD16, u16);
+bn!(BUintD32, BIntD32, u32);
+bn!(BUint, BInt, u64);
